@@ -281,6 +281,22 @@ func c17Rules(p *core.Prog, r *core.Run) {
 			inLoop = true
 		}
 		r.Check("C17.PAIR", "worker:clone-per-target", inLoop, p.InstrPos(call.Instr), "each attempt works on a config cloned inside the per-target loop, so ServerName, the target's ECH list and retry configs of one target cannot leak into the next: %s", short(p.X(tcArg)))
+		// ... and everything the worker writes into a tls.Config goes into that
+		// very clone (a write before the clone would land in the config all
+		// workers and all later targets share)
+		for _, b := range m.worker.Blocks {
+			for _, in := range b.Instrs {
+				st, ok := in.(*ssa.Store)
+				if !ok {
+					continue
+				}
+				fa, ok := st.Addr.(*ssa.FieldAddr)
+				if !ok || !strings.HasSuffix(deref2(fa.X.Type()).String(), "crypto/tls.Config") {
+					continue
+				}
+				r.Check("C17.PAIR", "worker:writes-into-clone:"+p.X(fa).Name, fa.X == tcArg, p.InstrPos(st), "the worker's store to tls.Config.%s goes into the per-target clone that is passed to the attempt (it goes into %s)", p.X(fa).Name, short(p.X(fa.X)))
+			}
+		}
 		net := call.X.Args[2]
 		r.Check("C17.PAIR", "worker:network", net.Op == "param" && net.Name == "p2", p.InstrPos(call.Instr), "the caller's network is passed on unchanged")
 	}
